@@ -109,7 +109,8 @@ def main():
         return 2
     cmd = args[0]
     allp = "--all" in args
-    ids = [a for a in args[1:] if not a.startswith("--")] or sorted(os.listdir(SEEDED))
+    ids = [a for a in args[1:] if not a.startswith("--")] or sorted(
+        x for x in os.listdir(SEEDED) if os.path.isdir(os.path.join(SEEDED, x)))
     os.makedirs(WORK, exist_ok=True)
     try:
         if cmd == "verify":
